@@ -124,7 +124,7 @@ CLAIMS = {
          'non-contiguous, negative). gateway_coef_sign is a known finding.',
          BND_NOTE % 'C14' + LX, 'Lean label-invariance proofs for the modularity values; pyvc functional contract of participation_coef + corollary (same partition, any labels: same result); relabelling on all partitions of small node sets (bounded) for the other consumers', '5/C14'),
 }
-CLAIMS['C16'] = ('exploration', BND + 'The body of get_components builds a Python list of sets with comprehensions: outside the VC generator\'s subset (and its natural invariant is a nested-quantifier list-of-sets '
+CLAIMS['C16'] = ('exploration', 'Mostly bounded: the main clause (labels of get_components = classes of mutually reachable nodes) is checked by executing the contract on the real function over exhaustively enumerated small scopes with an independent oracle; bounds are stated in the evidence. The body of get_components builds a Python list of sets with comprehensions: outside the VC generator\'s subset (and its natural invariant is a nested-quantifier list-of-sets '
                  'statement, DESIGN 5/C16). Two parts are discharged deductively on every run: (a) that distance_bin, breadthdist and reachdist agree with each other entry by entry off the diagonal (and the two reachability flags agree and mean "finite distance") is a corollary over their proved contracts (contracts/corollaries.py, networks without self-loops); (b) the rejection clause (prefix contract: execution passes the symmetry check only if A[x,y] = A[y,x] for all cells, every other '
                  'path raises BCTParamError; argument untouched). Bounded: ALL labelled undirected graphs n<=5 (quick) / n<=6 (thorough) incl. non-zero diagonals, weights, forests, late-merge edge orders; own union-find oracle; '
                  'agreement of the labels with distance_bin, breadthdist, reachdist.', BND_NOTE % 'C16', 'bounded exhaustive enumeration with an independent union-find; pyvc prefix contract for the rejection clause; pyvc corollary for the agreement of the three hop-distance routines', '5/C16')
